@@ -94,12 +94,41 @@ let show (mode : string) (tr : obs list) : string =
       (if n = 0 then "-" else hex_of_bytes (Stdlib.List.nth frames (n - 1)))
       (Stdlib.List.length rd) (dig rd) (Stdlib.List.length wr) (dig wr)
 
+(* run_items for very long conversations (thorough tier: 140 000 frames): the same composition as
+   Reply.items_moves / Reply.trace - the extracted [step], [seq_moves], [joins], one move at a time -
+   written as a loop, because the extracted recursive [trace] and [items_moves] need one stack frame
+   per message *)
+let run_items_iter (its : item list) : obs list =
+  let msgs = Stdlib.List.concat_map (fun it -> match it with IMsg d -> [d] | ICmd _ -> []) its in
+  let c = ref (init msgs) and h = ref None and out = ref [] in
+  let apply mv =
+    let (c', o) = step !c mv in
+    c := c';
+    Stdlib.List.iter (fun x -> out := x :: !out) o in
+  Stdlib.List.iter (fun it ->
+    match it with
+    | IMsg d ->
+      Stdlib.List.iter apply (seq_moves d);
+      (match !h with Some _ -> () | None -> if joins d then h := Some d.d_m)
+    | ICmd (cmd, body) ->
+      (match !h with Some hh -> apply (MCmd (hh, cmd, body)) | None -> ())) its;
+  Stdlib.List.rev !out
+
 (* conv <A|B> <item> ... : one connection, the items in order
    rtable <id> : the handler table entry *)
 let init () =
   register "conv" (fun a -> match a with
     | mode :: toks ->
-      (try show mode (run_items (items_of toks)) with Bad s -> "bad-" ^ s)
+      (try
+         let its = items_of toks in
+         if Stdlib.List.length its <= 70000 then show mode (run_items its)
+         else show mode (run_items_iter its)
+       with Bad s -> "bad-" ^ s)
+    | _ -> "bad-args");
+  (* the same with the loop evaluation, whatever the length (cross-check of run_items_iter) *)
+  register "conviter" (fun a -> match a with
+    | mode :: toks ->
+      (try show mode (run_items_iter (items_of toks)) with Bad s -> "bad-" ^ s)
     | _ -> "bad-args");
   register "rtable" (fun a -> match a with
     | [id] ->
